@@ -30,7 +30,7 @@ class _Target:
     header = None
 
 
-def _reads(s1, l1, gap, l2, third, g2, mm):
+def _reads(s1, l1, gap, l2, third, g2, mm, spliced=False):
     """read a covers [s1, s1+l1); read b starts gap after a's end (gap < 0: overlap); optional read c after another gap"""
     out = []
     pos = s1
@@ -43,7 +43,12 @@ def _reads(s1, l1, gap, l2, third, g2, mm):
         seq = S.REF[s:s + l]
         if mm and i == 0:
             seq = ('T' if seq[0] != 'T' else 'A') + seq[1:]
-        out.append(FakeRead(query_name='r%d' % i, reference_name='chr1', reference_start=s, cigartuples=[(0, l)], seq=seq, qual='I' * l,
+        cig = [(0, l)]
+        if spliced and i == 1 and l >= 2:
+            # read b is spliced: 1M 2N (l-1)M ; it covers s and s+3.. only, the skipped bases are NOT covered
+            cig = [(0, 1), (3, 2), (0, l - 1)]
+            seq = S.REF[s] + S.REF[s + 3:s + 3 + l - 1]
+        out.append(FakeRead(query_name='r%d' % i, reference_name='chr1', reference_start=s, cigartuples=cig, seq=seq, qual='I' * l,
                             is_read1=True, is_read2=False, tags={'SM': 'lib_1', 'RX': 'ACG', 'BC': 'ACGT'}))
     return out
 
@@ -82,7 +87,7 @@ def _l1_blocks(s1: int, l1: int, gap: int, l2: int, third: bool, g2: int) -> boo
     return [n for op, n in cig if op == 'N'] == gaps and [op for op, n in cig] == (['M', 'N'] * len(want))[:2 * len(want) - 1]
 
 
-def _l2_pseudo_reads(s1: int, l1: int, gap: int, l2: int, third: bool, g2: int, span: int, mm: bool) -> bool:
+def _l2_pseudo_reads(s1: int, l1: int, gap: int, l2: int, third: bool, g2: int, span: int, mm: bool, spliced: bool) -> bool:
     """
     pre: 0 <= s1 <= 3
     pre: 1 <= l1 <= 3 and 1 <= l2 <= 3
@@ -94,7 +99,7 @@ def _l2_pseudo_reads(s1: int, l1: int, gap: int, l2: int, third: bool, g2: int, 
     """
     R = list(range(-2, 6))
     s1, l1, gap, l2, g2 = pick(R, s1 + 2), pick(R, l1 + 2), pick(R, gap + 2), pick(R, l2 + 2), pick(R, g2 + 2)   # concrete geometry per path
-    reads = _reads(s1, l1, gap, l2, third, g2, mm)
+    reads = _reads(s1, l1, gap, l2, third, g2, mm, spliced)
     m = _molecule(reads)
     max_N_span = None if span < 0 else pick(R, span + 2)
     out = m.deduplicate_majority(_Target(), 'cons', max_N_span=max_N_span)
@@ -126,11 +131,11 @@ def _l2_pseudo_reads(s1: int, l1: int, gap: int, l2: int, third: bool, g2: int, 
 def _l3_call(na: int, nc: int, qa: int, qc: int) -> bool:
     """
     pre: 0 <= na <= 3 and 0 <= nc <= 3
-    pre: 0 <= qa <= 2 and 0 <= qc <= 2
+    pre: 0 <= qa <= 4 and 0 <= qc <= 4
     pre: na + nc >= 1
     post: _
     """
-    P = [0.9, 0.99, 0.999]
+    P = [0.9, 0.99, 0.999, 0.99999, 0.999999]     # up to Q50 / Q60: a decidable call must not be reported as a tie
     probs = {}
     if na:
         probs['A'] = [pick(P, qa)] * na
@@ -168,7 +173,7 @@ LEMMAS = [
     dict(name='L1_blocks_cigar', fn='_l1_blocks', engine='E1', timeout=_T, replay='replay.C15:replay',
          cases={'quick': [dict(id='two_l%d' % l, pre=['third == False', 'l1 == %d' % l, 'g2 == 0']) for l in (1, 2, 3)] + [dict(id='three_l%d_s%d' % (l, s), pre=['third == True', 'l1 == %d' % l, 's1 == %d' % s, 'l2 <= 2']) for l in (1, 2) for s in (0, 1)]}),
     dict(name='L2_pseudo_reads', fn='_l2_pseudo_reads', engine='E1', timeout=_T, replay='replay.C15:replay',
-         cases={'quick': [dict(id='%s_span%d_%s' % ('three' if t else 'two', sp, 'mm' if mm else 'match'), pre=['third == %s' % bool(t), 'span == %d' % sp, 'mm == %s' % bool(mm), 's1 <= 1', 'l1 <= 2'] + (['l2 <= 2', 'gap >= 0', 's1 == 0'] if t else ['g2 == 0']))
+         cases={'quick': [dict(id='%s_span%d_%s' % ('three' if t else 'two', sp, 'mm' if mm else 'match'), pre=['third == %s' % bool(t), 'span == %d' % sp, 'mm == %s' % bool(mm), 's1 <= 1', 'l1 <= 2'] + (['l2 <= 2', 'gap >= 0', 's1 == 0', 'spliced == False'] if t else ['g2 == 0']))
                           for t in (0, 1) for sp in (-1, 0, 1, 2) for mm in (0, 1)]}),
     dict(name='L3_call_structure', fn='_l3_call', engine='E1', timeout=_T, replay='replay.C15:replay'),
     dict(name='L4_md_roundtrip', fn='_l4_md', engine='E1', timeout=_T, replay='replay.C15:replay'),
@@ -177,7 +182,7 @@ LEMMAS = [
 PROPERTY = dict(
     functions=['molecule.Molecule.get_aligned_blocks / get_CIGAR / get_base_confidence_dict / deduplicate_majority / generate_partial_reads / get_dedup_reads / get_consensus_read / write_tags_to_psuedoreads',
                'utils.iteration.find_ranges', 'sequtils.create_MD_tag / phredscores_to_base_call / base_probabilities_to_likelihood'],
-    bounds=dict(coverage='2-3 reads of length 1..3 (third: 1) with overlap / adjacency / gaps 0..4 between them, start 0..3', max_N_span='None, 0..4', mismatch='optional mismatch in the first read',
+    bounds=dict(coverage='2-3 reads of length 1..3 (third: 1; the second read optionally spliced 1M2N..) with overlap / adjacency / gaps 0..4 between them, start 0..3', max_N_span='None, 0..4', mismatch='optional mismatch in the first read',
                 call='two bases with 0..3 observations each at 3 confidence levels'),
     outside=['optimality of the likelihood call over all real-valued qualities (floating point)', 'reverse-strand flag and allele tags of the pseudo-read', 'the --consensus command line (replay only)',
              'indels in the source reads'],
